@@ -136,6 +136,13 @@ CLAIMED = {
          "point-charge clusters judged on the implementation's output.",
          "Lean kernel + three standard axioms; witnesses for R and sqrt(3); PARTIAL: rotation invariance and the rank-2 point-charge limit searched numerically only.",
          "6/C15"),
+ "C17": ("Lean 4 proof about a store model (association list with replace; induction over the store) and about the matrix hyperslab index maps (Nat arithmetic) "
+         "+ correspondence: generated operation sequences on the real CheckpointFile under ASan, bit-identical comparison through fresh handles",
+         "read_after_write, overwrite_replaces, write_other, missing_is_error, readonly_rejects_writer, read_pure, memIdx_inj, fileIdx_inj, hyperslab_roundtrip "
+         "hold for all stores, keys, values, shapes and leading dimensions; tied to the working tree by replaying write / read / reopen sequences of all value "
+         "kinds and shapes (incl. empty ones and overwrites with other shapes) against the real library.",
+         "Lean kernel + three standard axioms; HDF5 external (the store model is the specification it is tested against); CptTable rows not generated.",
+         "6/C17"),
 }
 REASONS = {}
 
